@@ -203,6 +203,18 @@ Proof.
     apply (ensure_then_applies acts c1 c2 e2 W1 Hms H2).
 Qed.
 
+Corollary replay_sprint : forall k acts c c' evs,
+  wf_contact E c -> kind_wf k -> Forall (fun fm => mod_wf E (snd fm)) acts ->
+  run_sprint E k acts c = (c', evs) ->
+  same_contact (replay evs c) c'.
+Proof. intros k acts c c' evs H1 H2 H3 H4. exact (proj1 (after_sprint k acts c c' evs H1 H2 H3 H4)). Qed.
+
+Corollary consistent_after_sprint : forall k acts c c' evs,
+  wf_contact E c -> kind_wf k -> Forall (fun fm => mod_wf E (snd fm)) acts ->
+  run_sprint E k acts c = (c', evs) ->
+  Consistent E c' /\ wf_contact E c'.
+Proof. intros k acts c c' evs H1 H2 H3 H4. exact (proj2 (after_sprint k acts c c' evs H1 H2 H3 H4)). Qed.
+
 End Steps.
 
 (* the premises are satisfiable: a msg resume with a refreshed contact whose stored membership is wrong *)
